@@ -8,6 +8,17 @@ import sys
 root = '/repo'
 out = {}
 meths = {}
+sigs = {}
+bodies = {}
+
+
+def body_digest(fn):
+    """digest of a function body without docstring and annotations (parameter names kept, their order not part of it)"""
+    import hashlib
+    body = [st for st in fn.body if not (isinstance(st, ast.Expr) and isinstance(st.value, ast.Constant) and isinstance(st.value.value, str))]
+    return hashlib.sha1('\n'.join(ast.dump(st, annotate_fields=False) for st in body).encode()).hexdigest()[:16]
+
+
 for dirpath, dirs, files in os.walk(os.path.join(root, 'wn')):
     dirs[:] = sorted(d for d in dirs if d != '__pycache__')
     for f in sorted(files):
@@ -15,6 +26,9 @@ for dirpath, dirs, files in os.walk(os.path.join(root, 'wn')):
             rel = os.path.relpath(os.path.join(dirpath, f), root)
             tree = ast.parse(open(os.path.join(root, rel), encoding='utf-8').read())
             out[rel] = sorted(n.name for n in tree.body if isinstance(n, (ast.FunctionDef, ast.AsyncFunctionDef)))
+            sigs[rel] = {n.name: [a.arg for a in n.args.posonlyargs + n.args.args + n.args.kwonlyargs]
+                         for n in tree.body if isinstance(n, ast.FunctionDef) and n.name.startswith('_')}
+            bodies[rel] = {n.name: body_digest(n) for n in tree.body if isinstance(n, ast.FunctionDef) and n.name.startswith('_')}
             meths[rel] = {c.name: sorted(m.name for m in c.body if isinstance(m, (ast.FunctionDef, ast.AsyncFunctionDef)))
                           for c in tree.body if isinstance(c, ast.ClassDef)}
 here = os.path.join(os.path.dirname(os.path.dirname(os.path.abspath(__file__))), 'wnstatic', 'known_funcs.py')
@@ -23,6 +37,16 @@ with open(here, 'w') as fh:
     fh.write('KNOWN = {\n')
     for rel, names in sorted(out.items()):
         fh.write(f'    {rel!r}: {names!r},\n')
+    fh.write('}\n')
+    fh.write('KNOWN_SIGS = {\n')
+    for rel, d in sorted(sigs.items()):
+        if d:
+            fh.write(f'    {rel!r}: {d!r},\n')
+    fh.write('}\n')
+    fh.write('KNOWN_BODIES = {\n')
+    for rel, d in sorted(bodies.items()):
+        if d:
+            fh.write(f'    {rel!r}: {d!r},\n')
     fh.write('}\n')
     fh.write('KNOWN_METHODS = {\n')
     for rel, cl in sorted(meths.items()):
